@@ -95,6 +95,14 @@ def Store.loadEnd (acl : Acl) (s : Store) (logs : List (OMap × OMap)) : Store :
   let s' := s.loadEnd0 acl logs
   { s' with remoteHeads := some ((sortedHeads s'.log).map (·.hash) ++ keptHeads s.remoteHeads s'.log) }
 
+/-- `replicationLoadComplete(logs)` when the Put of `_remoteHeads` fails (a device error): the logs are
+joined and the view is refreshed — both precede the Put — and the function returns: the cache and
+the status stay as they were, and no `replicated` event is emitted (nothing is reported, so nothing
+is owed after a restart; the next successful round rewrites the cache). -/
+def Store.loadEndPutFailed (acl : Acl) (s : Store) (logs : List (OMap × OMap)) : Store :=
+  let L' := joinAll acl s.log logs
+  { s with log := L', idx := updateIndex s.kind s.idx L' }
+
 /-- joins of the **pinned** `replicationLoadComplete` (finding F6, repaired): abort on the first
 error, keeping the joins already done -/
 def joinAllPinned (acl : Acl) (L : Log) : List (OMap × OMap) → Log × Bool
